@@ -1,7 +1,8 @@
 #!/usr/bin/env python3
-"""C18, determinism half: every command on every corpus input is run R times in FRESH
-processes (fresh hash seeds) and the outputs must be byte-identical. The input dimension is
-exhaustive over the corpus; the hash-seed dimension is sampled (R runs) - stated as such."""
+"""C18, determinism half: every command on every corpus input is run once per hash seed of a
+fixed seed list (the process's getrandom() is interposed, so std's RandomState keys - and with them
+every HashMap/HashSet iteration order - are chosen by the harness and a failure reproduces on
+every run) plus once free-running (own seeds, ASLR on); all outputs must be byte-identical."""
 import os, sys, glob, shutil, subprocess, hashlib
 from concurrent.futures import ThreadPoolExecutor
 sys.path.insert(0, os.path.dirname(__file__))
@@ -19,10 +20,15 @@ def main():
     tier = tier_from_args()
     anthem = build_anthem()
     run = Run("C18", tier)
-    R = 2 if tier == "quick" else 5
+    shim = build_seedshim()
+    seeds = ([1, 2, 3] if tier == "quick" else list(range(1, 12))) if shim else []
+    R = len(seeds) + (1 if shim else (2 if tier == "quick" else 5))
     run.rule = (f"determinism half: every command (parse x4 kinds, translate x5, simplify 3 portfolios x 3 strategies, analyze x2, verify --no-proof-search --save-problems for every line of the examples' .tests files) "
-                f"on every corpus input (all example files + {len(SMALL_PROGRAMS)} small programs and their tau-star/gamma theories) is executed {R} times in fresh processes and compared byte-wise (stdout, exit status, every saved problem file)")
-    run.assumptions.append(f"the hash-seed dimension (RandomState keys) cannot be enumerated; it is covered by {R} fresh processes per input, i.e. sampled; the input dimension is exhaustive over the corpus. Thread timing does not exist before the prover stage (C10 covers that stage)")
+                f"on every corpus input (all example files + {len(SMALL_PROGRAMS)} small programs and their tau-star/gamma theories) is executed {R} times in fresh processes ({len(seeds)} with harness-chosen hash seeds, the rest free-running) and compared byte-wise (stdout, exit status, every saved problem file)")
+    if shim:
+        run.assumptions.append(f"hash-map iteration order: the RandomState keys are owned by the harness (getrandom interposed through LD_PRELOAD, validated below on a probe); the seed list {seeds} is enumerated, not all 2^128 keys: an order dependence that shows for none of these seeds on none of the corpus inputs is missed. One additional free-running process per command (own keys, ASLR on) covers address-dependent orders as a sample. The input dimension is exhaustive over the corpus. Thread timing does not exist before the prover stage (C10 covers that stage)")
+    else:
+        run.assumptions.append(f"no C compiler for the getrandom shim: the hash-seed dimension is covered by {R} fresh processes per input, i.e. sampled")
     base = scratch("c18_")
     jobs = []
     try:
@@ -78,10 +84,11 @@ def main():
             args, cwd = job
             outs = []
             for r in range(R):
+                env = {"LD_PRELOAD": shim, "VERIF_HASH_SEED": str(seeds[r])} if r < len(seeds) else None
                 a = list(args); out_dir = None
                 if "$OUT" in a:
                     out_dir = scratch("c18o_"); a = [out_dir if x == "$OUT" else x for x in a]
-                code, so, se = run_anthem(a, cwd=cwd, timeout=120)
+                code, so, se = run_anthem(a, cwd=cwd, env=env, timeout=120)
                 files = {}
                 if out_dir:
                     for f in sorted(os.listdir(out_dir)): files[f] = hashlib.sha1(open(os.path.join(out_dir, f), "rb").read()).hexdigest()
